@@ -359,7 +359,7 @@ def run(tier: str, seed: int):
                 units.append((g, pre, depth, maxk))
                 # the same graph under other names / insertion orders (depth 1): the primitives sort predecessors and successors
                 if 3 <= n <= 4:
-                    for lab in labelings(n, "few"):
+                    for lab in labelings(n, "few+ns" if n == 3 else "few"):
                         units.append((g, pre, 1, maxk, lab))
     # "all graphs": blocks with three successors, several of them in S at once (outside the closed-CFG input domain of the
     # pipeline, inside the domain of the edit primitives)
